@@ -3,6 +3,7 @@ CONSTANTS
   Clients <- MC1Clients
   Reqs <- MC1Reqs
   Bg = "bg"
+  Pool <- NoPool
   Handoff = FALSE
 INVARIANT RecvMutex
 INVARIANT CondMutex
